@@ -69,6 +69,12 @@ FRAME = "others_unchanged(*old(env), *final(env))"
 BU = "broadcast use owner_model::lemma_owners_push_b, needed_model::lemma_needed_push_b;"
 
 WITNESSES = [
+    {"match": r"eval_block\.", "kind": "run-file", "props": ["C06"],
+     "input": "fun f(o: Option<Int>): Int {\n  match o {\n    Some(v) => {}\n    None => {}\n  }\n  if True { v } else { 0 }\n}\nprintln(string_repr(f(Some(42))))\n",
+     "expect": {"stdout_contains": "No such variable"}, "note": "the payload variable of a match case with an empty body must not reach a later block"},
+    {"match": r"eval_block\.", "kind": "run-file", "props": ["C06"],
+     "input": "fun g(o: Option<(Int, Int)>): Int {\n  let t = 0\n  for x in [1, 2] {\n    match o { Some((a, b)) => {} None => {} }\n    if x == 2 { t = a }\n  }\n  t\n}\nprintln(string_repr(g(Some((3, 4)))))\n",
+     "expect": {"stdout_contains": "No such variable"}, "note": "the same with a destructured payload inside a loop"},
     {"match": r"eval_break\.", "kind": "run-file", "props": ["C06"],
      "input": "fun f() {\n  while True {\n    let w = 5\n    break\n  }\n  println(string_repr(w))\n}\nf()\n",
      "expect": {"stdout_contains": "No such variable"}, "note": "a loop-body variable must not be visible after `break`"},
@@ -106,13 +112,17 @@ def build(tier):
         requires=[("nonempty", TOPLEN)],
         ensures=[("one_block_more", "top(*final(env)).bindings.block_bindings@.len() == top(*old(env)).bindings.block_bindings@.len() + 1"),
                  ("no_new_owner", "owners(top(*final(env)).exprs_to_eval@) == owners(top(*old(env)).exprs_to_eval@)"),
+                 # the bindings a match case / for loop / catch prepared for this block go into it and nowhere else
+                 ("pending_bindings_consumed", "top(*final(env)).bindings_next_block@.len() == 0"),
                  ("others", FRAME)],
         body_prelude=BU,
-        loops={1: dict(body_prelude=BU, invariant=[("frame", "stack_frame.bindings.block_bindings@.len() == top(*old(env)).bindings.block_bindings@.len() + 1")],
+        loops={1: dict(body_prelude=BU, invariant=[("frame", "stack_frame.bindings.block_bindings@.len() == top(*old(env)).bindings.block_bindings@.len() + 1"),
+                                                   ("pending_bindings_taken", "stack_frame.bindings_next_block@.len() == 0")],
                        decreases="it_rest(&__it1).len()"),
                2: dict(body_prelude=BU, invariant=[("idx", "__i2 <= block.exprs@.len()"),
                                   ("st", "old(env).stack.0@.len() >= 1, env.stack.0@.len() == old(env).stack.0@.len(), env.stack.0@.drop_last() == old(env).stack.0@.drop_last()"),
                                   ("blocks", "top(*env).bindings.block_bindings@.len() == top(*old(env)).bindings.block_bindings@.len() + 1"),
+                                  ("pending_bindings_taken", "top(*env).bindings_next_block@.len() == 0"),
                                   ("owners", "owners(top(*env).exprs_to_eval@) == owners(top(*old(env)).exprs_to_eval@)")],
                        decreases="__i2")},
         props=c06, canary=False))
